@@ -406,13 +406,13 @@ def element_stores(text):
     return out
 
 
-def shared_inheritance(chk, f3, rule, tag='', limits=(1, 4)):
-    ok = re.search(r'if\s*\(parent\s*==\s*NULL\)\s*\{\s*i->m0\s*=\s*WASM_MEMORY_ALLOCATE_SHARED\(%d,\s*%d\)\s*;\s*\}\s*else\s*\{\s*i->m0\s*=\s*parent->m0\s*;\s*\}'
-                   % limits, f3)
+def shared_inheritance(chk, f3, rule, tag='', limits=(1, 4), mem='m0'):
+    ok = re.search(r'if\s*\(parent\s*==\s*NULL\)\s*\{\s*i->%s\s*=\s*WASM_MEMORY_ALLOCATE_SHARED\(%d,\s*%d\)\s*;\s*\}\s*else\s*\{\s*i->%s\s*=\s*parent->%s\s*;\s*\}'
+                   % ((mem,) + tuple(limits) + (mem, mem)), f3)
     chk.expect(ok is not None, rule, 'shared-memory-inherited' + tag,
-               'a shared memory with limits %d..%d is initialised by %r; expected allocation (of these limits) for the root instance and the parent\'s '
-               'descriptor itself (i->m0 = parent->m0) for children: all threads must see one memory, and grow one page counter under one mutex'
-               % (limits[0], limits[1], f3.strip()), 'wasmCWriteInitMemories:shared')
+               'a shared memory %s with limits %d..%d is initialised by %r; expected allocation (of these limits) for the root instance and the parent\'s '
+               'descriptor itself (i->%s = parent->%s) for children: all threads must see one memory, and grow one page counter under one mutex'
+               % (mem, limits[0], limits[1], f3.strip(), mem, mem), 'wasmCWriteInitMemories:shared')
 
 
 def check_shared_descriptor(chk, tus, rule):
@@ -425,6 +425,16 @@ def check_shared_descriptor(chk, tus, rule):
         fns = split_functions(inits_text(it, mk3))
         chk.require('modInitMemories' in fns and 'modNewChild' in fns, 'InitMemories/NewChild not emitted for a shared memory')
         shared_inheritance(chk, fns['modInitMemories'], rule, tag='' if limits == (1, 4) else '[limits %d..%d]' % limits, limits=limits)
+    # several memories: the memory index space counts imported memories first - a shared memory defined after an imported one is m1,
+    # and a child takes the parent's m1 (not the descriptor at the defined memory's position among the definitions)
+    for label, kw, mems in (('imported+shared', dict(memory_imports=[('env', 'mem', 1, 2, False)], memories=[(1, 4, True)]), ('m1',)),
+                            ('shared+shared', dict(memories=[(1, 4, True), (1, 4, True)]), ('m0', 'm1')),
+                            ('imported+plain+shared', dict(memory_imports=[('env', 'mem', 1, 2, False)], memories=[(1, 2, False), (1, 4, True)]), ('m2',))):
+        mkm = lambda kw=kw: M.build(it, types=[([], [])], functions=[0], **kw)
+        fnsm = split_functions(inits_text(it, mkm))
+        chk.require('modInitMemories' in fnsm, 'InitMemories not emitted for %s memories' % label)
+        for mname in mems:
+            shared_inheritance(chk, fnsm['modInitMemories'], rule, tag='[%s:%s]' % (label, mname), limits=(1, 4), mem=mname)
     got = re.findall(r'\bmodInitMemories\s*\(\s*(\w+)\s*,\s*(\w+)\s*\)', fns['modNewChild'])
     chk.expect(got == [('child', 'self')], rule, 'newchild-passes-parent',
                'NewChild initialises the memories with %r; expected InitMemories(child, self) so that the child inherits from its creator' % (got,),
